@@ -114,6 +114,29 @@ fn crafted() -> Vec<(String, Vec<KEv>)> {
             v.push((cfg.to_string(), h));
         }
     }
+    // chords v2 perform their action at a position outside of the layers and defsrc: every kind of
+    // action must be either refused by the parser or performed without a crash
+    for act in [
+        "use-defsrc", "@tr", "@src", "(multi x use-defsrc)", "(multi x @tr)", "(tap-hold 50 50 x @tr)", "(tap-hold 50 50 @src y)",
+        "(one-shot 100 @src)", "(tap-dance 50 (x @tr))", "(fork @tr x (lsft))", "(fork x @src (lsft))", "(switch () @tr break)",
+        "(switch ((key-history a 1)) x break () @src break)", "(chord grp a)", "@th", "(one-shot 100 lsft)", "(tap-dance 50 (x y))",
+        "(layer-while-held l1)", "rpt", "rpt-any", "(macro x 10 y)", "(release-key a)", "(caps-word 100)", "(unmod x)",
+        "(on-press-fakekey v1 tap)", "(fork x y (lsft))", "(switch ((input real a)) x break () y break)", "(multi lsft (macro-release-cancel x 50 y))",
+    ] {
+        let cfg = format!(
+            "(defcfg concurrent-tap-hold yes)\n(defvirtualkeys v1 z)\n(defchords grp 50 (a) _ (b) use-defsrc (a b) z)\n(defalias tr _ src use-defsrc th (tap-hold 50 50 x lctl))\n(defsrc a b c)\n(deflayer l0 a b (layer-while-held l1))\n(deflayer l1 (chord grp a) (chord grp b) _)\n(defchordsv2 (a b) {act} 30 all-released ()\n (b c) {act} 30 first-release ())\n"
+        );
+        let mut h = vec![p("a"), t(3), p("b"), t(100), rl("a"), t(5), rl("b"), t(100)];
+        v.push((cfg.clone(), h.clone()));
+        h = vec![p("c"), t(3), p("b"), t(3), rl("b"), t(3), rl("c"), t(100), p("b"), t(2), p("a"), t(2), rl("b"), t(2), p("b"), t(200), rl("a"), rl("b"), t(300)];
+        v.push((cfg.clone(), h));
+        for seed in 0..2u64 {
+            let mut r2 = Rng::new(0xC02_C42 ^ seed);
+            let keys = [code("a"), code("b"), code("c")];
+            let h = wild_history(&mut r2, &keys, 8 + 6 * seed as usize);
+            v.push((cfg.clone(), h));
+        }
+    }
     // the repeat key buffer (MultiKeyBuffer, 20 slots): one-shot keys accumulate their key codes
     // there when the next ordinary key is pressed; 19 / 20 / 21 / 25 codes
     for n in [19usize, 20, 21, 25] {
